@@ -11,7 +11,7 @@ Engine E1.  Three explorations, all against the real ``emg3d.meshes``:
   properties of length 1, 2, 3, 4, 7); the checker routes the parameters to
   the three directions itself (from the documented formats) and applies the
   one-direction oracle to every direction of the returned mesh.
-* ``estimate-opts``: ``estimate_gridding_opts`` on 3 surveys x 2 models x
+* ``estimate-opts``: ``estimate_gridding_opts`` on 4 surveys x 2 models x
   option sets, followed by ``construct_mesh(**opts)``.
 
 The oracle is recomputed from the documented definitions (skin depth,
@@ -877,7 +877,7 @@ def cm_lattice(depth):
 
 
 # ---------------------------------------------- estimate_gridding_opts: cases
-EGO_SURVEYS = ('line', 'spread', 'short')
+EGO_SURVEYS = ('line', 'spread', 'short', 'wire')
 EGO_MODELS = ('iso-cond', 'tri-lgres')
 EGO_OPTS = ('empty', 'passthrough', 'vector-xy', 'provided', 'distance',
             'seasurface', 'tiny')
@@ -898,6 +898,20 @@ def build_survey(name):
         rec = emg3d.surveys.txrx_coordinates_to_dict(
             emg3d.RxElectricPoint, (xx.ravel(), yy.ravel(), -900.0, 0, 0))
         freqs = [0.1, 1.0, 4.0]
+    elif name == 'wire':    # T-shaped grounded wire (revisits an electrode)
+        src = [emg3d.TxElectricWire(
+                   ([-400., -100., -800.], [0., -100., -800.],
+                    [0., 700., -800.], [0., -100., -800.],
+                    [300., -100., -800.])),
+               emg3d.TxElectricWire(    # closed loop, two turns
+                   ([600., 0., -820.], [900., 0., -820.],
+                    [900., 200., -820.], [600., 0., -820.],
+                    [900., 0., -820.], [900., 200., -820.],
+                    [600., 0., -820.]))]
+        rec = emg3d.surveys.txrx_coordinates_to_dict(
+            emg3d.RxElectricPoint,
+            (np.arange(4)*600.0 - 900, 300.0, -900.0, 0, 0))
+        freqs = [0.5, 1.0]
     else:                   # short: point source, two relative receivers
         src = emg3d.TxElectricPoint((300.0, -200.0, -700.0, 20.0, 0.0))
         rec = [emg3d.RxElectricPoint((250.0, 0.0, -50.0, 0, 0),
@@ -980,7 +994,11 @@ def case_ego(c):
     # frequency / centre / mapping
     freqs = np.array(list(survey.frequencies.values()), dtype=float)
     f_ref = given.get('frequency', float(np.exp(np.mean(np.log(freqs)))))
-    src_c = np.array([s.center for s in survey.sources.values()])
+    def own_center(s):
+        # documented: centre point of all UNIQUE electrodes
+        return np.mean(sorted({tuple(map(float, p_)) for p_ in s.points}),
+                       axis=0)
+    src_c = np.array([own_center(s) for s in survey.sources.values()])
     c_ref = np.array(given.get('center', src_c.mean(0)), dtype=float)
     m_ref = given.get('mapping', model.map.name)
     ncmp += 3
@@ -1045,9 +1063,10 @@ def case_ego(c):
                     'conductivity of a cell next to the centre', got[0], cand)
 
     # domain
-    pts = [s.center for s in survey.sources.values()]
+    pts = [own_center(s) for s in survey.sources.values()]
     for s in survey.sources.values():
-        pts += [r.center_abs(s) for r in survey.receivers.values()]
+        pts += [np.asarray(r.center) + (own_center(s) if r.relative else 0.)
+                for r in survey.receivers.values()]
     pts = np.array(pts, dtype=float)
     gdom = g['domain']
     gdom = [gdom[k] for k in 'xyz'] if isinstance(gdom, dict) else list(gdom)
@@ -1297,7 +1316,7 @@ def run(ctx):
         cs = [{'survey': s_, 'model': m_, 'opts': o}
               for o in EGO_OPTS for s_ in EGO_SURVEYS for m_ in EGO_MODELS]
         ctx.explore('estimate-opts', FN_EGO, cs, engine='E1',
-                    rule=f'estimate_gridding_opts: 3 surveys x 2 models x '
+                    rule=f'estimate_gridding_opts: 4 surveys (one with wires that revisit electrodes) x 2 models x '
                          f'{len(EGO_OPTS)} option sets, then '
                          f'construct_mesh(**opts)',
                     time_cap=cap(1.0))
